@@ -266,8 +266,117 @@ def c04(ctx):
         ctx.random_validate("data", 400, 200)
 
 
+def c05(ctx):
+    inv = ["AtMostOnce", "DeliveredAuthentic"]
+    bag = dict(DATA33, NetMode="bag")
+    if ctx.quick():
+        ctx.model("c05-bag-2x2", dict(bag, MaxSend=2, MaxFlight=2, MaxDup=2, MaxDrop=1), inv)
+        ctx.export_validate("c05x-bag", dict(bag, MaxSend=2, MaxFlight=2, MaxDup=1), "bag", drain=True, maxsched=2500)
+        ctx.random_validate("bag", 64, 60)
+    else:
+        ctx.model("c05-bag-3x3", dict(bag, MaxSend=3, MaxFlight=3, MaxDup=2, MaxDrop=1), inv, timeout=2400)
+        ctx.model("c05-bag-v2", dict(PolA=1, PolB=1, Setup="ake", NetMode="bag", MaxSend=2, MaxFlight=2, MaxDup=3, MaxDrop=1), inv)
+        ctx.export_validate("c05x-bag", dict(bag, MaxSend=2, MaxFlight=2, MaxDup=2), "bag", drain=True, maxsched=12000)
+        ctx.random_validate("bag", 480, 150)
+        ctx.random_validate("bagsess", 160, 120)
+
+
+def c09(ctx):
+    inv = ["DisclosedRetired", "WireDisclosedRetired", "UsedThenDisclosed"]
+    if ctx.quick():
+        ctx.model("c09-3x3", dict(DATA33, MaxSend=3, MaxFlight=3), inv)
+        ctx.model("c09-tick", dict(DATA33, MaxSend=2, MaxFlight=2, MaxTick=2, MaxExtra=1), inv)
+        ctx.export_validate("c09x", dict(DATA33, MaxSend=2, MaxFlight=2, MaxTick=1), "fifo-data", drain=True)
+        ctx.random_validate("data", 48, 80)
+        ctx.random_validate("oneway", 16, 80)
+    else:
+        ctx.model("c09-5x4", dict(DATA33, MaxSend=5, MaxFlight=4), inv)
+        ctx.model("c09-tick", dict(DATA33, MaxSend=3, MaxFlight=3, MaxTick=2, MaxExtra=2), inv)
+        ctx.model("c09-bag", dict(DATA33, NetMode="bag", MaxSend=2, MaxFlight=2, MaxDup=2, MaxDrop=1), inv)
+        ctx.export_validate("c09x", dict(DATA33, MaxSend=3, MaxFlight=3, MaxTick=1, MaxExtra=1), "fifo-data", drain=True)
+        ctx.random_validate("data", 320, 200)
+        ctx.random_validate("oneway", 64, 200)
+        ctx.random_validate("life", 160, 120)
+
+
+def c19(ctx):
+    inv = ["SizeBound"]
+    if ctx.quick():
+        ctx.model("c19-3x3", dict(DATA33, MaxSend=3, MaxFlight=3), inv)
+        ctx.model("c19-bag", dict(DATA33, NetMode="bag", MaxSend=2, MaxFlight=2, MaxDup=2, MaxDrop=1), inv)
+        for n in (50, 100, 200):
+            ctx.random_validate("pingpong", 2, n, tag="pp%d" % n)
+            ctx.random_validate("oneway", 2, n, tag="ow%d" % n)
+        ctx.random_validate("bag", 16, 100)
+    else:
+        ctx.model("c19-5x4", dict(DATA33, MaxSend=5, MaxFlight=4), inv)
+        ctx.model("c19-bag", dict(DATA33, NetMode="bag", MaxSend=3, MaxFlight=2, MaxDup=2, MaxDrop=1), inv)
+        for n in (400, 800, 1600, 3200):
+            ctx.random_validate("pingpong", 2, n, tag="pp%d" % n)
+            ctx.random_validate("oneway", 2, n, tag="ow%d" % n)
+        ctx.random_validate("bag", 64, 400)
+        ctx.random_validate("life", 64, 400)
+
+
+LIFE = [dict(PolA=a, PolB=b) for a, b in ((3, 3), (7, 3), (3 | 8, 3 | 16), (7 | 32, 3 | 32), (1, 3), (2 | 4, 3 | 4))]
+
+
+def c18(ctx):
+    inv = ["EncryptedExactly"]
+    cfgs = LIFE[:3] if ctx.quick() else LIFE
+    for i, pol in enumerate(cfgs):
+        c = dict(pol, MaxSend=1 if ctx.quick() else 2, MaxFlight=3, MaxQuery=1, MaxEnd=1, MaxTick=0 if ctx.quick() else 1)
+        ctx.model("c18-life%d" % i, c, inv, timeout=1800)
+    ctx.export_validate("c18x", dict(PolA=7, PolB=3, MaxSend=1, MaxFlight=3, MaxQuery=1, MaxEnd=1), "life", drain=True,
+                        maxsched=2500 if ctx.quick() else 20000)
+    ctx.random_validate("life", 64 if ctx.quick() else 480, 60 if ctx.quick() else 150)
+    ctx.random_validate("errlife", 32 if ctx.quick() else 240, 60 if ctx.quick() else 150)
+
+
+def c03(ctx):
+    inv = ["NoLeak"]
+    cfgs = [dict(PolA=7, PolB=3), dict(PolA=3 | 8, PolB=3 | 16 | 4), dict(PolA=7 | 32, PolB=7)]
+    if not ctx.quick():
+        cfgs += [dict(PolA=5, PolB=1), dict(PolA=6 | 8, PolB=2 | 16), dict(PolA=3, PolB=3)]
+    for i, pol in enumerate(cfgs):
+        c = dict(pol, MaxSend=2, MaxFlight=3, MaxQuery=1, MaxEnd=1)
+        ctx.model("c03-life%d" % i, c, inv, timeout=1800)
+    ctx.export_validate("c03x", dict(PolA=7, PolB=3 | 4, MaxSend=1, MaxFlight=3, MaxQuery=1, MaxEnd=1), "life", drain=True,
+                        maxsched=2500 if ctx.quick() else 20000)
+    ctx.random_validate("life", 64 if ctx.quick() else 480, 60 if ctx.quick() else 150)
+
+
+STARTS = {
+    "queryA": (dict(PolA=3, PolB=3), [dict(a="Query", p="A")]),
+    "queryB-v2": (dict(PolA=1, PolB=3), [dict(a="Query", p="B")]),
+    "both": (dict(PolA=3, PolB=3), [dict(a="Query", p="A"), dict(a="Query", p="B")]),
+    "both-v2": (dict(PolA=1, PolB=1), [dict(a="Query", p="A"), dict(a="Query", p="B")]),
+    "tag": (dict(PolA=3 | 8, PolB=3 | 16), [dict(a="Send", p="A")]),
+    "req": (dict(PolA=3 | 4, PolB=3), [dict(a="Send", p="A")]),
+    "reqboth": (dict(PolA=3 | 4, PolB=3 | 4), [dict(a="Send", p="A"), dict(a="Send", p="B")]),
+    "err": (dict(PolA=3 | 32, PolB=3), [dict(a="Err", p="A")]),
+    "refresh": (dict(PolA=3, PolB=3), [dict(a="Query", p="A"), dict(a="Deliver", p="B"), dict(a="Deliver", p="A"), dict(a="Deliver", p="B"),
+                                       dict(a="Deliver", p="A"), dict(a="Deliver", p="B"), dict(a="Tick", p="A"), dict(a="Tick", p="B"),
+                                       dict(a="Query", p="B")]),
+}
+
+
+def c07(ctx):
+    for name, (pol, prelude) in STARTS.items():
+        c = dict(pol, Prelude=prelude, MaxSend=0, MaxFlight=4, MaxQuery=0 if ctx.quick() else 1)
+        ctx.model("c07-" + name, c, invariants=["QuietImpliesDone"], properties=["Completes"], spec="FairSpec", timeout=1800)
+        ctx.export_validate("c07x-" + name, c, "ake", drain=True)
+    ctx.random_validate("akestart", 64 if ctx.quick() else 640, 30)
+
+
 TABLE = {
+    "C03": c03,
     "C04": c04,
+    "C05": c05,
+    "C07": c07,
+    "C09": c09,
+    "C18": c18,
+    "C19": c19,
 }
 
 
